@@ -13,9 +13,11 @@ func init() {
 		ID: "C09",
 		Explain: "Static necessary conditions for 'fast checkmate and stalemate tests agree with the absence of legal moves'. " +
 			"R1: piece–attack pairing (PA.1 reverse form, PA.2 forward form, PA.4 pawn colour) over IsCheckmate, IsStalemate, Attackers, Block, IsAttacked. " +
-			"R2: every 'pinned' decision in the two functions is taken from BOTH a diagonal test (bishop rays from the own king, against bishops/queens) and a lateral test (rook rays, against rooks/queens) on the SAME modified occupancy and the same opponent set; the two deliberate one-sided tests (bishop loop / rook loop) use the ray kind the piece cannot move along. " +
+			"R2: every king-exposure decision in the two functions and their private helpers is taken from BOTH a diagonal test (bishop rays from the own king, against bishops/queens) and a lateral test (rook rays, against rooks/queens) on the SAME modified occupancy and the same opponent set; the two deliberate one-sided tests (bishop loop / rook loop) use the ray kind the piece cannot move along. " +
 			"R3: IsCheckmate is called only under InCheck(STM) == true and IsStalemate only under false, on the same board with no move made in between (otherwise the attacker's square is 64 and InBetween[k][64] panics). " +
 			"R4: king flight squares are tested with the king removed from the occupancy, against the opponent. " +
+			"R5: where the simulated move is a capture (defenders from Attackers(V,…); a pawn capturing onto PawnCaptureMoves(piece)&enemy) the captured piece is excluded from the pin test's attacker set. " +
+			"R6: a two-step pawn push composition masks the first step with the full occupancy. " +
 			"Not decided: agreement of the 250-line case analysis with move generation for concrete positions.",
 		Assume: []string{"go/ssa models the program faithfully"},
 		Run:    runC09,
@@ -49,6 +51,8 @@ func runC09(c *Ctx) {
 	c09R2(c, p)
 	c09R3(c, p)
 	c09R4(c, p)
+	c09R5(c, p)
+	c09R6(c, p)
 }
 
 // pinTest is one `F(kingSq, occ') & pieces & opp != 0` condition.
@@ -512,6 +516,15 @@ func init() {
 		Mutant{Name: "C09.R2-bishop-paralysis-tested-on-diagonals", Prop: "C09", File: "board/attacks.go",
 			Old: "\t\tif (attacks.RookMoves(kingSq, nocc) & (b.Pieces[Rook] | b.Pieces[Queen]) & opp) == 0 {\n\t\t\tif (attacks.BishopMoves(sq, nocc) & ^me) != 0 {", New: "\t\tif (attacks.BishopMoves(kingSq, nocc) & (b.Pieces[Bishop] | b.Pieces[Queen]) & opp) == 0 {\n\t\t\tif (attacks.BishopMoves(sq, nocc) & ^me) != 0 {",
 			Expect: "C09.R2/board.(*Board).IsStalemate#paralysed-bishop"},
+		Mutant{Name: "C09.R5-captured-checker-still-pins", Prop: "C09", File: "board/attacks.go", Quick: true,
+			Old: "\t\tnocc &= ^defender\n\t\topp &= ^attacker\n", New: "\t\tnocc &= ^defender\n",
+			Expect: "C09.R5/board.(*Board).IsCheckmate#captured-cannot-pin"},
+		Mutant{Name: "C09.R5-pawn-takes-pinner-not-excluded", Prop: "C09", File: "board/attacks.go",
+			Old: "(b.Pieces[Bishop] | b.Pieces[Queen]) & ^targets & opp) != 0 {", New: "(b.Pieces[Bishop] | b.Pieces[Queen]) & opp) != 0 {",
+			Expect: "C09.R5/board.(*Board).IsStalemate#captured-cannot-pin"},
+		Mutant{Name: "C09.R6-double-step-over-own-pawn", Prop: "C09", File: "board/attacks.go", Quick: true,
+			Old: "\tdpawn = attacks.PawnSinglePushMoves(dpawn, color.Flip()) &^ occ\n", New: "\tdpawn = attacks.PawnSinglePushMoves(dpawn, color.Flip()) &^ occNoPawn\n",
+			Expect: "C09.R6/board.(*Board).Block#double-step"},
 		Mutant{Name: "C09.R3-stalemate-test-also-in-check", Prop: "C09", File: "search/search.go", Quick: true,
 			Old: "\tif inCheck {\n\t\tif b.IsCheckmate() {\n\t\t\treturn -Inf + Score(ply)\n\t\t}\n\t} else {\n\t\tif b.IsStalemate() {\n\t\t\treturn 0\n\t\t}\n\t}\n", New: "\tif inCheck {\n\t\tif b.IsCheckmate() {\n\t\t\treturn -Inf + Score(ply)\n\t\t}\n\t}\n\tif b.IsStalemate() {\n\t\treturn 0\n\t}\n",
 			Expect: "C09.R3/search.(*Search).quiescence#IsStalemate"},
@@ -526,4 +539,388 @@ func init() {
 			Old: "\t\tif !b.IsAttacked(b.STM.Flip(), occ&^king, kMove) {", New: "\t\tif !b.IsAttacked(b.STM, occ&^king, kMove) {",
 			Expect: "C09.R4/board.(*Board).IsStalemate#king-flights#by-opponent"},
 	)
+}
+
+// maskLeaves decomposes a bitboard expression built from &, &^ and ^x into the sets it is
+// intersected with (pos) and the sets excluded from it (neg).
+func maskLeaves(v ssa.Value, pos, neg *[]ssa.Value) {
+	v = stripConv(v)
+	switch x := v.(type) {
+	case *ssa.BinOp:
+		switch x.Op {
+		case token.AND:
+			maskLeaves(x.X, pos, neg)
+			maskLeaves(x.Y, pos, neg)
+			return
+		case token.AND_NOT:
+			maskLeaves(x.X, pos, neg)
+			*neg = append(*neg, stripConv(x.Y))
+			return
+		}
+	case *ssa.UnOp:
+		if x.Op == token.XOR {
+			*neg = append(*neg, stripConv(x.X))
+			return
+		}
+	}
+	*pos = append(*pos, v)
+}
+
+// andContext walks upwards from v through the &/&^ expression it is part of and returns
+// the other sets it is intersected with and the sets excluded.
+func andContext(v ssa.Value) (pos, neg []ssa.Value) {
+	top := v
+	for {
+		refs := top.Referrers()
+		if refs == nil {
+			return
+		}
+		var next ssa.Value
+		for _, r := range *refs {
+			bo, ok := r.(*ssa.BinOp)
+			if !ok {
+				continue
+			}
+			switch bo.Op {
+			case token.AND:
+				other := bo.Y
+				if bo.Y == top {
+					other = bo.X
+				}
+				maskLeaves(other, &pos, &neg)
+				next = bo
+			case token.AND_NOT:
+				if bo.X == top {
+					neg = append(neg, stripConv(bo.Y))
+					next = bo
+				}
+			}
+			if next != nil {
+				break
+			}
+		}
+		if next == nil {
+			return
+		}
+		top = next
+	}
+}
+
+func isFullOccupancy(v ssa.Value) bool {
+	bo, ok := stripConv(v).(*ssa.BinOp)
+	if !ok || bo.Op != token.OR {
+		return false
+	}
+	a, ok1 := coloursLoad(bo.X)
+	b, ok2 := coloursLoad(bo.Y)
+	if !ok1 || !ok2 {
+		return false
+	}
+	return (a.Base == "const0" && b.Base == "const1") || (a.Base == "const1" && b.Base == "const0") ||
+		(a.Base == b.Base && a.Flipped != b.Flipped)
+}
+
+// setOrigins: the values a piece set is carved out of — through bit isolation (x & -x), the loop
+// variable stripping it, and intersections/exclusions; calls are leaves (their arguments are not followed).
+func setOrigins(v ssa.Value) []ssa.Value {
+	var out []ssa.Value
+	seen := map[ssa.Value]bool{}
+	var walk func(v ssa.Value, d int)
+	walk = func(v ssa.Value, d int) {
+		v = stripConv(v)
+		if seen[v] || d > 20 {
+			return
+		}
+		seen[v] = true
+		switch x := v.(type) {
+		case *ssa.Phi:
+			for _, e := range x.Edges {
+				walk(e, d+1)
+			}
+		case *ssa.BinOp:
+			switch x.Op {
+			case token.AND:
+				walk(x.X, d+1)
+				walk(x.Y, d+1)
+			case token.AND_NOT:
+				walk(x.X, d+1)
+			default:
+				out = append(out, v)
+			}
+		case *ssa.UnOp:
+			if x.Op == token.SUB { // -x of the isolate
+				walk(x.X, d+1)
+				return
+			}
+			out = append(out, v)
+		default:
+			out = append(out, v)
+		}
+	}
+	walk(v, 0)
+	return out
+}
+
+// c09R5: a simulated capture removes the captured piece. Where the case analysis asks "is the
+// piece that makes this capture pinned?", the captured piece must not count as a pinner:
+//   - defenders taken from Attackers(V, …) capture V: the enemy set of both ray tests excludes V;
+//   - a pawn capturing onto T = PawnCaptureMoves(piece) & enemy: the diagonal test (the only line a
+//     pawn-capture victim can share with the pawn) excludes T.
+// Otherwise "capture the pinner / the checker" is judged illegal and a position with that single
+// legal move is called mate or stalemate.
+func c09R5(c *Ctx, p *Prog) {
+	const rule = "C09.R5"
+	pcs := pieceConsts(p)
+	var roots []*ssa.Function
+	for _, spec := range []string{"board.(*Board).IsCheckmate", "board.(*Board).IsStalemate"} {
+		if fn := p.Func(spec); fn != nil {
+			roots = append(roots, fn)
+		} else {
+			c.Anchor(rule, spec)
+		}
+	}
+	n := 0
+	type ctx struct {
+		fn   *ssa.Function // function the values are resolved in
+		bind map[*ssa.Parameter]ssa.Value
+		site ssa.CallInstruction
+	}
+	for _, fn := range p.closure(roots, func(f *ssa.Function) bool { return relPkg(fnPkgPath(f)) != "board" }) {
+		if relPkg(fnPkgPath(fn)) != "board" {
+			continue
+		}
+		isRoot := fn == roots[0] || (len(roots) > 1 && fn == roots[1])
+		var ctxs []ctx
+		if isRoot {
+			ctxs = []ctx{{fn: fn}}
+		} else {
+			for _, r := range roots {
+				allInstrs(r, func(in ssa.Instruction) {
+					ci, ok := in.(ssa.CallInstruction)
+					if !ok || ci.Common().StaticCallee() != fn {
+						return
+					}
+					b := map[*ssa.Parameter]ssa.Value{}
+					for i, par := range fn.Params {
+						if i < len(ci.Common().Args) {
+							b[par] = ci.Common().Args[i]
+						}
+					}
+					ctxs = append(ctxs, ctx{fn: r, bind: b, site: ci})
+				})
+			}
+		}
+		ord := 0
+		allInstrs(fn, func(in ssa.Instruction) {
+			call, ok := in.(*ssa.Call)
+			if !ok {
+				return
+			}
+			f, ok := attackFns[objName(calleeObj(call))]
+			if !ok || (f != "Bishop" && f != "Rook") {
+				return
+			}
+			ks := kindsThroughParams(p, call.Call.Args[0], pcs)
+			if len(ks) != 1 || ks[0] != "King" {
+				return
+			}
+			pos, neg := andContext(call)
+			hasSet := false
+			for _, l := range pos {
+				if _, ok := pureOrOfPieces(l, pcs); ok {
+					hasSet = true
+				}
+			}
+			if !hasSet {
+				return
+			}
+			ord++
+			for ci, cx := range ctxs {
+				res := func(v ssa.Value) ssa.Value {
+					if par, ok := v.(*ssa.Parameter); ok && cx.bind != nil {
+						if a, ok := cx.bind[par]; ok {
+							return a
+						}
+					}
+					return v
+				}
+				// everything excluded from the attacker set in this context
+				var excl []ssa.Value
+				excl = append(excl, neg...)
+				for _, l := range pos {
+					var pp, nn []ssa.Value
+					maskLeaves(res(l), &pp, &nn)
+					excl = append(excl, nn...)
+				}
+				// the moving piece: what the occupancy argument removes
+				occArg := res(call.Call.Args[1])
+				var opos, oneg []ssa.Value
+				maskLeaves(occArg, &opos, &oneg)
+				// `(occ &^ piece) | targets`: look inside the or
+				if bo, ok := stripConv(occArg).(*ssa.BinOp); ok && bo.Op == token.OR {
+					maskLeaves(bo.X, &opos, &oneg)
+					maskLeaves(bo.Y, &opos, &oneg)
+				}
+				var victims []ssa.Value
+				how := ""
+				for _, mv := range oneg {
+					// (i) isolated bit of a set that comes from Attackers(V, …)
+					for _, w := range setOrigins(mv) {
+						if ac, ok := w.(*ssa.Call); ok && objName(calleeObj(ac)) == "board.(*Board).Attackers" {
+							victims = append(victims, ac.Call.Args[1])
+							how = "the capturers come from Attackers(V, …)"
+						}
+					}
+					// (ii) a pawn-capture destination set of the same moving piece whose definition dominates this test
+					if f == "Bishop" {
+						var here ssa.Instruction = call
+						if cx.site != nil {
+							here = cx.site
+						}
+						allInstrs(cx.fn, func(in2 ssa.Instruction) {
+							pc, ok := in2.(*ssa.Call)
+							if !ok || objName(calleeObj(pc)) != "attacks.PawnCaptureMoves" || !sameValue(pc.Call.Args[0], mv, 0) {
+								return
+							}
+							if !instrDominates(pc, here) {
+								return
+							}
+							// the destination set: the capture pattern intersected with the enemy
+							ppos, _ := andContext(pc)
+							enemy := false
+							for _, l := range ppos {
+								for w := range backSlice(l, sliceOpts{}) {
+									if ce, ok := coloursLoad(w); ok && ce == (colourExpr{"STM", true}) {
+										enemy = true
+									}
+								}
+							}
+							if !enemy {
+								return
+							}
+							// T is the value of the whole conjunction
+							top := ssa.Value(pc)
+							for {
+								var nx ssa.Value
+								if top.Referrers() != nil {
+									for _, r := range *top.Referrers() {
+										if bo, ok := r.(*ssa.BinOp); ok && (bo.Op == token.AND || (bo.Op == token.AND_NOT && bo.X == top)) {
+											nx = bo
+										}
+									}
+								}
+								if nx == nil {
+									break
+								}
+								top = nx
+							}
+							victims = append(victims, top)
+							how = "the pawn captures onto T = PawnCaptureMoves(piece) & enemy"
+						})
+					}
+				}
+				if len(victims) == 0 {
+					continue
+				}
+				n++
+				key := fmt.Sprintf("%s#captured-cannot-pin:%s@%d", fnName(fn), f, ord)
+				if len(ctxs) > 1 {
+					key += fmt.Sprintf("/site%d", ci+1)
+				}
+				okAll := true
+				for _, v := range victims {
+					found := false
+					for _, e := range excl {
+						if sameValue(e, v, 0) {
+							found = true
+						}
+						// excluded through a running `opp &= ^V` (phi)
+					}
+					if !found {
+						okAll = false
+					}
+				}
+				if okAll {
+					c.Ok(rule, key, call.Pos(), "%s: the captured piece is excluded from the %s-ray pin test", how, f)
+				} else {
+					c.Fail(rule, key, call.Pos(), "%s, but the %s-ray test still counts the captured piece as a possible pinner: capturing the pinner/checker is judged illegal, so a position whose only legal move is that capture is called (stale)mate", how, f)
+				}
+			}
+		})
+	}
+	c.Floor(rule, n, 2, "pin tests of simulated captures")
+}
+
+// c09R6: a two-step pawn push passes over the intermediate square, which must be empty of ALL
+// pieces. Wherever a PawnSinglePushMoves result is pushed again, the first step is masked
+// with the full occupancy (not one with pieces taken out for the simulation).
+func c09R6(c *Ctx, p *Prog) {
+	const rule = "C09.R6"
+	n := 0
+	for _, fn := range p.OwnFuncs() {
+		if relPkg(fnPkgPath(fn)) != "board" {
+			continue
+		}
+		ord := 0
+		allInstrs(fn, func(in ssa.Instruction) {
+			p2, ok := in.(*ssa.Call)
+			if !ok || objName(calleeObj(p2)) != "attacks.PawnSinglePushMoves" {
+				return
+			}
+			// is the argument itself built from a push?
+			var pos, neg []ssa.Value
+			var collect func(v ssa.Value, depth int)
+			seen := map[ssa.Value]bool{}
+			var inner *ssa.Call
+			collect = func(v ssa.Value, depth int) {
+				v = stripConv(v)
+				if seen[v] || depth > 8 {
+					return
+				}
+				seen[v] = true
+				var pp, nn []ssa.Value
+				maskLeaves(v, &pp, &nn)
+				neg = append(neg, nn...)
+				for _, l := range pp {
+					if cl, ok := l.(*ssa.Call); ok && objName(calleeObj(cl)) == "attacks.PawnSinglePushMoves" {
+						inner = cl
+						continue
+					}
+					if bo, ok := l.(*ssa.BinOp); ok && (bo.Op == token.AND || bo.Op == token.AND_NOT) {
+						collect(l, depth+1)
+						continue
+					}
+					pos = append(pos, l)
+				}
+			}
+			collect(p2.Call.Args[0], 0)
+			if inner == nil {
+				return
+			}
+			ord++
+			n++
+			key := fmt.Sprintf("%s#double-step@%d", fnName(fn), ord)
+			full, reduced := false, ""
+			for _, e := range neg {
+				if isFullOccupancy(e) {
+					full = true
+					continue
+				}
+				for w := range backSlice(e, sliceOpts{}) {
+					if isFullOccupancy(w) {
+						reduced = p.Rel(e.Pos())
+					}
+				}
+			}
+			switch {
+			case full:
+				c.Ok(rule, key, p2.Pos(), "the square passed over by the double step is tested against the full occupancy")
+			case reduced != "":
+				c.Fail(rule, key, p2.Pos(), "the square passed over by the double step is tested against an occupancy with pieces taken out (%s): a pawn is found able to jump over a piece of its own side", reduced)
+			default:
+				c.Undec(rule, key, p2.Pos(), "no emptiness test of the square passed over by the double step recognised")
+			}
+		})
+	}
+	c.Floor(rule, n, 1, "two-step pawn push compositions")
 }
